@@ -1249,3 +1249,7 @@ M('C20-alias-args-swapped', 'C20', SB_PLAY,
   "    position_and_look = multi_attribute_alias(\n        PositionAndLook, 'x', 'feet_y', 'z', 'yaw', 'pitch')",
   "    position_and_look = multi_attribute_alias(\n        'x', PositionAndLook, 'feet_y', 'z', 'yaw', 'pitch')",
   rule='R20.6')
+M('C02-pitch-return-before-scaling', 'C02', SOUND,
+  "            if context.protocol_earlier(204):\n                value /= 63.5\n            return value",
+  "            return value\n            if context.protocol_earlier(204):\n                value /= 63.5",
+  rule='R02.6')
